@@ -7,5 +7,6 @@ mkdir -p out evidence
 (cd harness && cargo build --release)
 # warm the generated-crate target directory used by C17 (dependencies only; the check regenerates sources)
 ./harness/target/release/verif C17 --tier quick --seed 1 >/dev/null 2>&1 || true
-if [ -x fuzz/build.sh ]; then fuzz/build.sh; fi
+# libFuzzer targets used by the thorough tier (fuzz/run.sh rebuilds them against /repo's current tree on every use)
+(cd harness && cargo +nightly fuzz build -s none >/dev/null 2>../out/fuzz-setup.log) || echo "note: fuzz targets did not build at setup (see out/fuzz-setup.log); thorough checks will report INCONCLUSIVE for the fuzz part"
 echo "setup done"
